@@ -189,15 +189,38 @@ func stubgenCase(c map[string]interface{}) (out map[string]interface{}) {
 	if legacy {
 		param += ",legacy_desc_names"
 	}
-	resp, err := runPlugin(map[string]string{"case.proto": src}, []string{"case.proto"}, param)
+	files := map[string]string{"case.proto": src}
+	toGen := []string{"case.proto"}
+	if others, ok := c["others"].(string); ok {
+		files["types.proto"] = "syntax = \"proto3\";\npackage other.types;\noption go_package = \"example.com/gen/types;types\";\nmessage OnlyAMessage {}\n"
+		files["othersvc.proto"] = "syntax = \"proto3\";\npackage other.svc;\noption go_package = \"example.com/gen/othersvc;othersvc\";\nmessage A {}\nservice Neighbour { rpc Ping (A) returns (A); rpc Watch (A) returns (stream A); }\n"
+		switch others {
+		case "types-before":
+			toGen = []string{"types.proto", "case.proto"}
+		case "types-after":
+			toGen = []string{"case.proto", "types.proto"}
+		case "svc-before":
+			toGen = []string{"othersvc.proto", "case.proto"}
+		case "types-and-svc-before":
+			toGen = []string{"othersvc.proto", "types.proto", "case.proto"}
+		}
+	}
+	resp, err := runPlugin(files, toGen, param)
 	if err != nil {
 		panic(err)
 	}
-	if len(resp.File) != 1 {
-		out["text"] = fmt.Sprintf("%d output files", len(resp.File))
+	out["outfiles"] = len(resp.File)
+	var mine *pluginpb.CodeGeneratorResponse_File
+	for _, f := range resp.File {
+		if strings.HasSuffix(f.GetName(), "case.pb.grpchan.go") {
+			mine = f
+		}
+	}
+	if mine == nil {
+		out["text"] = fmt.Sprintf("%d output files, none for the file under test", len(resp.File))
 		return out
 	}
-	code := resp.File[0].GetContent()
+	code := mine.GetContent()
 	fset := token.NewFileSet()
 	f, perr := parser.ParseFile(fset, "out.go", code, 0)
 	if perr != nil {
